@@ -3,8 +3,8 @@
 //! result: `N <feedlen> | L <off> <line|-> <col|-> ... | S <s> <e> <st> <en>|P ...`
 //! over all char-boundary offsets / spans of the concatenated text, plus
 //! one out-of-range offset.
-//! `D <plen> ; <code points>` and `G <code points> ; <spans>`: SpannedDiagnosticFormatter
-//! (lrpar/src/lib/diagnostics.rs), see `diag_case` / `spanned_case`.
+//! `D<flags> <plen> ; <code points>` and `G<flags> <code points> ; <spans>`: SpannedDiagnosticFormatter
+//! (lrpar/src/lib/diagnostics.rs), see `diag_case` / `spanned_case`; `C <hex grammar>`: `conflicts_case`.
 use gvh::util::*;
 use cfgrammar::{NewlineCache, Span};
 use lrlex::{DefaultLexerTypes, LRNonStreamingLexerDef, LexerDef};
@@ -36,7 +36,7 @@ fn res_hex(out: &mut String, tag: &str, key: &str, r: Result<String, String>) {
     }
 }
 
-/// `D <plen> ; <code points>`: SpannedDiagnosticFormatter over the whole text:
+/// `D<flags> <plen> ; <code points>`: SpannedDiagnosticFormatter over the whole text:
 /// `prefixed_underline_span_with_text(prefix of plen dots, span, "msg", '^')` for every
 /// boundary span (plen = 0: `underline_span_with_text`), `file_location_msg` for every
 /// boundary and one offset past the end.
@@ -73,7 +73,7 @@ fn diag_case(line: &str) -> String {
     out
 }
 
-/// `G <code points> ; s1 e1 s2 e2 ...`: `format_warning` (= the private `format_spanned`) of a
+/// `G<flags> <code points> ; s1 e1 s2 e2 ...`: `format_warning` (= the private `format_spanned`) of a
 /// DuplicationError-kind warning carrying these spans.
 fn spanned_case(line: &str) -> String {
     let mut it = line.splitn(2, ';');
@@ -131,14 +131,69 @@ fn lexer_queries(out: &mut String, text: &str, bounds: &[usize]) {
     }
 }
 
+/// `C <hex of a yacc grammar source (Original, NoAction)>`: `format_conflicts` on the grammar's own
+/// text, to reach the private `underline_spans_on_line_with_text`.  Result: `K x<hex of the output>`
+/// then, per shift/reduce conflict in the order they are formatted, ` | Q s e s e ...` = the spans of
+/// the reduced production's symbols (or its `prod_span` when it has none), i.e. the spans
+/// `format_conflicts` hands to `underline_spans_on_line_with_text` line by line.
+fn conflicts_case(line: &str) -> String {
+    use cfgrammar::yacc::{ast::{ASTWithValidityInfo, Symbol}, YaccGrammar, YaccKind, YaccOriginalActionKind};
+    let src = gvh::common::unhex(line.trim());
+    let astv = ASTWithValidityInfo::new(YaccKind::Original(YaccOriginalActionKind::NoAction), &src);
+    let grm = match YaccGrammar::<u32>::new_from_ast_with_validity_info(&astv) {
+        Ok(g) => g,
+        Err(_) => return "GRMERR".to_string(),
+    };
+    let (sg, st) = match lrtable::from_yacc(&grm, lrtable::Minimiser::Pager) {
+        Ok(x) => x,
+        Err(_) => return "TBLERR".to_string(),
+    };
+    let c = match st.conflicts() {
+        Some(c) => c,
+        None => return "NOCONFLICT".to_string(),
+    };
+    let path = std::path::PathBuf::from("f");
+    let r = catch(std::panic::AssertUnwindSafe(|| {
+        let fmt = SpannedDiagnosticFormatter::new(&src, &path);
+        fmt.format_conflicts::<DefaultLexerTypes<u32>>(&grm, astv.ast(), c, &sg, &st)
+    }));
+    let mut out = String::new();
+    res_hex(&mut out, "K", "0", r);
+    let mut out = out[3..].to_string();
+    for (_, pidx, _) in c.sr_conflicts() {
+        let prod = &astv.ast().prods[usize::from(*pidx)];
+        let mut spans: Vec<Span> = prod
+            .symbols
+            .iter()
+            .map(|sym| match sym {
+                Symbol::Rule(_, sp) => *sp,
+                Symbol::Token(_, sp) => *sp,
+            })
+            .collect();
+        if spans.is_empty() {
+            spans.push(prod.prod_span);
+        }
+        out.push_str(" | Q");
+        for sp in spans {
+            write!(out, " {} {}", sp.start(), sp.end()).unwrap();
+        }
+    }
+    out
+}
+
 fn main() {
     gvh::quiet_panics();
     for_each_case(|line| {
+        // the characters between the kind letter and the first blank select the model
+        // variant; they mean nothing here
         if let Some(rest) = line.strip_prefix("D") {
-            return diag_case(rest);
+            return diag_case(rest.trim_start_matches(|ch: char| !ch.is_whitespace()));
+        }
+        if let Some(rest) = line.strip_prefix("C") {
+            return conflicts_case(rest);
         }
         if let Some(rest) = line.strip_prefix("G") {
-            return spanned_case(rest);
+            return spanned_case(rest.trim_start_matches(|ch: char| !ch.is_whitespace()));
         }
         let line = line.strip_prefix("T").unwrap_or(line);
         let chunks: Vec<String> = line.split(';').map(cps_to_string).collect();
